@@ -31,6 +31,7 @@ partial def loop (h : IO.FS.Stream) (out : IO.FS.Stream) (f : List Char → Stri
   match decodeLine line with
   | none => out.putStr "BADINPUT\nEND\n"
   | some src => out.putStr (f src ++ "END\n")
+  out.flush
   loop h out f
 
 partial def runLoop (h : IO.FS.Stream) (out : IO.FS.Stream) (nonce : String) (path : List Char) (fuel : Nat) (i : Nat) : IO Unit := do
@@ -47,6 +48,7 @@ partial def runLoop (h : IO.FS.Stream) (out : IO.FS.Stream) (nonce : String) (pa
       | .success => "0" | .failed => "103" | .crashed => "101" | .timeout => "timeout"
     out.putStr s!"STATUS {nonce} {code} {hexChars o.stderr}\n"
   out.putStr s!"END {nonce} {i}\n"
+  out.flush
   runLoop h out nonce path fuel (i + 1)
 
 def main (args : List String) : IO UInt32 := do
